@@ -1066,7 +1066,7 @@ def correspondence(ctx):
     corr_csv(ctx, out)
     corr_table_text(ctx, out)
     rng = ctx.subrng("corr-ops")
-    cases = [gen_case(rng) for _ in range(ctx.budget(5000, 60000))]
+    cases = [gen_case(rng) for _ in range(ctx.budget(5000, 100000))]
     cases += [malformed_case(rng) for _ in range(ctx.budget(500, 6000))]
     cases = [c for c in cases if modelable(c)]
     reps = ctx.driver.batch([model_req(c) for c in cases])
